@@ -1,5 +1,10 @@
 """C01 — the x86/amd64 lifter agrees with the processor on every instruction and state (DESIGN §6 C01, LIFTER_BRIEF)."""
+import os
 import re
+import sys
+sys.path.insert(0, os.path.dirname(os.path.abspath(__file__)))
+import types  # noqa: E402
+import smt_tie  # noqa: E402
 ID = "C01"
 HARNESS_BIN = "c01"
 DRIVER = "fvd_c01"
@@ -27,6 +32,7 @@ TRUSTED = [
     "the native single-stepper harness/src/bin/c01/native.rs (signal-frame context switch + RFLAGS.TF) and the Linux kernel's sigreturn",
     "correspondence: harness/src/bin/c01.rs + harness/src/lift.rs (FIL printer, exec_btr) + lean/Drivers/C01.lean",
     "IL semantics = FalconModel/Exec.lean (C04/C07 relate it to falcon's evaluator and executor)",
+    smt_tie.TRUSTED,
 ]
 ASSUMPTIONS = [
     "flat segments: cs/ds/es/ss bases are 0 in both modes; fs/gs bases are arbitrary (no silicon comparison for fs/gs: the host's fs base is the harness's TLS)",
@@ -145,6 +151,10 @@ def verdicts(c):
         d = diff(fpost, c.model)
         if d:
             out.append(("broken", "executor-vs-il-model/" + what(d)))
+    # falcon's IL against the Lean mirror of the lifter (the classes with a universal theorem): syntactic comparison by the
+    # driver; a difference may still be settled semantically by resolve_broken below
+    if smt_tie.has_mirror_diff(c):
+        out.append(("broken", "mirror-differs"))
     return out
 
 
@@ -203,8 +213,19 @@ psubb psubq punpcklbw punpcklwd push pxor ret rol ror sahf sar sbb scasb scasw s
 NOT_COMPARED = ["cli", "sti", "hlt", "int", "syscall", "sysenter", "ud2", "wait (x87 state)"]
 
 
+SMT = smt_tie.new_counters()
+
+
+def resolve_broken(check, cases):
+    """falcon's IL differs syntactically from the mirror's: z3 decides whether it differs semantically (props/smt_tie.py;
+    validation support for the mirror tie, not a theorem)"""
+    return smt_tie.resolve(check, types.SimpleNamespace(**globals()), cases,
+                           lambda c: verdicts(c) == [("broken", "mirror-differs")], SMT)
+
+
 def extra_coverage():
     return {
+        "mirror_tie_smt": SMT,
         "oracles": ["falcon executor on lifted IL", "Lean IL semantics on dumped IL", "Lean x86 specification (both modes)", "host CPU single-step (amd64)"],
         "proved_helpers": PROVED_HELPERS,
         "mirrored_class_syntactic_check": MIRRORED_CLASS,
